@@ -274,8 +274,10 @@ class Gen:
                     r = rng.random()
                     if r < 0.3:
                         explicit = nxt + rng.randrange(0, 5)          # monotone explicit value
-                    elif r < 0.42:
-                        explicit = rng.choice([rng.randrange(0, 30), rng.randrange(-5, 0), 2**31 - 1, 0])
+                    elif r < 0.55:
+                        # boundary values: -1 in particular is a value a parser may be tempted to use as "unset"
+                        explicit = rng.choice([rng.randrange(0, 30), rng.randrange(-5, 0), 2**31 - 1, 0, -1, -1, -2, 1,
+                                               -2**31, nxt - 1, nxt - 2])
                     v = explicit if explicit is not None else nxt
                     nxt = v + 1
                     vals.append({"doc": self.doc(0.1), "name": vn, "explicit": explicit, "anns": self.anns(0.1)})
